@@ -32,6 +32,8 @@ def shards(tier: str, seed: int):
     if tier == "thorough":
         for l1e in range(32):
             out.append(["full", l1e])
+    for part in range(4):
+        out.append(["rootcache", part])
     for cover in ("exact", "l1end", "later"):
         for part in range(4):
             out.append(["api", cover, part])
@@ -169,7 +171,47 @@ def api_shard(acc, seed: int, cover: str, part: int) -> None:
     acc.sample({"api": "cache primed via reference DC", "cover_policy": cover, "hash": rk.hash_name})
 
 
+def rootcache_shard(acc, seed: int, part: int) -> None:
+    """one KeyCache with the root key loaded, shared by blobs of 2 SIDs x 2 L0 values in an interleaved order"""
+    import dpapi_ng
+
+    from ref import cms
+
+    seams.block_network()
+    d = seams.Drbg(("C02root", seed, part))
+    rk = seams.make_root(d, ["SHA256", "SHA512", "SHA1", "SHA384"][part])
+    sids = ["S-1-5-21-7-8-9-1107", "S-1-5-21-7-8-9-1108"]
+    triples = [(sids[0], 360), (sids[0], 360), (sids[1], 360), (sids[1], 360), (sids[0], 361), (sids[1], 361), (sids[0], 360), (sids[1], 360), (sids[0], 361)]
+    cache = seams.make_cache(rk)
+    n = 0
+    for rnd, (l1, l2) in enumerate([(a, b) for a in SUB for b in SUB]):
+        order = triples[rnd % 3 :] + triples[: rnd % 3]
+        for sid, l0 in order:
+            blob = cms.ref_encrypt(rk, sid, PT, (l0, l1, l2), cek=d.bytes(32), gcm_nonce_=d.bytes(12), key_nonce=d.bytes(32))
+            kind, val = seams.outcome_of(lambda: dpapi_ng.ncrypt_unprotect_secret(blob, cache=cache))
+            n += 1
+            if kind != "ok" or bytes(val) != PT:
+                acc.violate("rootcache.failed", ["rootcache", part, rnd, sid, l0, l1, l2], {"outcome": kind, "value": repr(val)[:120]}, size=rnd)
+            # and protect through the same cache: the reference decryptor must open it
+            if rnd % 8 == 0:
+                kind, val = seams.outcome_of(lambda: dpapi_ng.ncrypt_protect_secret(PT, sid, root_key_identifier=rk.rkid, cache=cache))
+                n += 1
+                try:
+                    okp = kind == "ok" and cms.ref_decrypt(rk, bytes(val)) == PT
+                except Exception:  # noqa: BLE001
+                    okp = False
+                if not okp:
+                    acc.violate("rootcache.protect", ["rootcache-protect", part, rnd, sid], {"outcome": kind}, size=rnd)
+    acc.ev(n)
+    acc.nt_counted(n)
+    acc.outcome("rootcache-ok", n)
+    acc.sample({"shared root-key cache": "2 SIDs x 2 L0 interleaved", "hash": rk.hash_name})
+
+
 def run_shard(shard, tier, seed, acc) -> None:
+    if shard[0] == "rootcache":
+        rootcache_shard(acc, seed, shard[1])
+        return
     if shard[0] == "api":
         api_shard(acc, seed, shard[1], shard[2])
         return
@@ -187,6 +229,14 @@ def run_shard(shard, tier, seed, acc) -> None:
 
 
 def replay(case, seed, acc) -> None:
+    if case[0] in ("rootcache", "rootcache-protect"):
+        rootcache_shard(acc, seed, case[1])
+        for k in list(acc.violations):
+            acc.violations[k] = [e for e in acc.violations[k] if e["case"] == case]
+            if not acc.violations[k]:
+                del acc.violations[k]
+        acc.violation_count = sum(len(v) for v in acc.violations.values())
+        return
     if case[0] == "api":
         api_shard(acc, seed, case[1], case[2])
         for k in list(acc.violations):
